@@ -143,8 +143,8 @@ func VH_mstr_DigitRuns() {
 	for i := 0; i < len(y); i++ {
 		vAssume(vIsDigit(y[i]))
 	}
-	if len(pre) > 0 {
-		vAssume(!vIsDigit(pre[len(pre)-1]))
+	for i := 0; i < len(pre); i++ {
+		vAssume(!vIsDigit(pre[i])) // a non-digit prefix of any length
 	}
 	suf := "z"
 	vx, vy := 0, 0
